@@ -525,6 +525,7 @@ struct app {
         else if (op == "ack") {
             sim::broker::ack_override ov; bool has = false;
             if (s.contains("rc")) { ov.rc = (int) jint(s, "rc", 0); has = true; }
+            if (s.contains("rcx")) { ov.rcx = (int) jint(s, "rcx", 0); has = true; }
             if (s.contains("codes")) { ov.has_codes = true; has = true; for (auto& x : s.at("codes").as_array()) ov.codes.push_back(x.to_number<int>()); }
             if (s.contains("props")) { ov.props = jprops(s); has = true; }
             if (s.contains("short")) { ov.shortform = (int) jint(s, "short", 0); has = true; }
